@@ -571,6 +571,14 @@ func run(id, tier, only string, workers int, trace bool, replayFile, solver stri
 				continue
 			}
 			for _, o := range outs {
+				if o.Result == "not-run" {
+					// an earlier case of this batch did not return natively (verif.MustFinish):
+					// the process had to exit; this case says nothing either way
+					if v, ok := idx[o.Tag]; ok {
+						verdicts = append(verdicts, verdict{v: v, status: "not-reproduced"})
+					}
+					continue
+				}
 				if v, ok := idx[o.Tag]; ok {
 					st := "not-reproduced"
 					if o.Result == "engine-only" {
